@@ -1113,7 +1113,20 @@ def eval_ihgo(ctx, c, outs):
                 fails.append(Failure('oracle', f'extend by {ho} (new outer labels) raised {type(r).__name__}: {r}', c,
                                      detail={'op': oi, 'empty_extend': was_empty}))
         raised.append(None if r is None else err_cat(r))
-        vio = check_bijection(ih, absent=[('zz',) * depth], expect=cur, what=f'after op {oi} {op}')
+        vio = []
+        if r is None and depth >= 3 and oi % 2 == 0:
+            # derived straight after the growth call, before anything re-reads the arrays of the grown index (a cached table
+            # that is out of date must not be handed to the derived index)
+            for cnt in (1, -1):
+                try:
+                    d = ih.level_drop(cnt)
+                except Exception:
+                    ctx.count('ihgo_level_drop_refused')
+                    continue
+                exp_d = [t[cnt:] for t in cur] if cnt > 0 else list(dict.fromkeys(t[:cnt] for t in cur))
+                ctx.count('ihgo_level_drop_after_growth')
+                vio += check_bijection(d, expect=exp_d, what=f'level_drop({cnt}) straight after op {oi} {op[0]}')
+        vio += check_bijection(ih, absent=[('zz',) * depth], expect=cur, what=f'after op {oi} {op}')
         vio += ic.check_unchanged(keep, hts0, f'after op {oi} {op[0]}')
         for v in vio:
             fails.append(Failure('oracle', v, c, detail={'op': oi, 'key': op[1] if op[0] == 'ap' else None,
